@@ -31,6 +31,9 @@ func c06Run(c *vf.Case, msgs []wsMsg, events []wsEvent, wire []byte, cuts []int,
 	if s == nil {
 		return
 	}
+	if c06Validate {
+		s.ValidateUTF8(true)
+	}
 	s.SetMaxMessageSize(maxSize)
 	t.DeferReads = deferReads
 	var segs [][]byte
@@ -197,8 +200,30 @@ func c06Run(c *vf.Case, msgs []wsMsg, events []wsEvent, wire []byte, cuts []int,
 	_ = xport.ErrInjected
 }
 
+// c06Validate: the stream of the current case validates the payloads of text frames (ValidateUTF8(true)); the peer's
+// text messages then contain multi-byte characters, which its fragmentation may split anywhere (RFC 6455 5.4).
+var c06Validate bool
+
+// utf8Bytes returns exactly n bytes of valid UTF-8 with characters of one to four bytes.
+func utf8Bytes(r *vf.Rand, n int) []byte {
+	runes := []string{"a", "z", "\u00e9", "\u00df", "\u20ac", "\u4e16", "\U0001f600", "\U00010348"}
+	out := make([]byte, 0, n)
+	for len(out) < n {
+		s := runes[r.Intn(len(runes))]
+		if len(out)+len(s) > n {
+			s = "x"
+		}
+		out = append(out, s...)
+	}
+	return out
+}
+
 func runC06(c *vf.Case) {
 	r := c.Rng
+	c06Validate = r.Chance(1, 3)
+	if c06Validate {
+		c.Count("streams_read_with_utf8_validation_on", 1)
+	}
 	maxSize := []int{1000, 70000, 70000, websocket.DefaultMaxMessageSize}[r.Intn(4)]
 	if maxSize > 70000 && !r.Chance(1, 6) {
 		maxSize = 1000
@@ -227,7 +252,9 @@ func runC06(c *vf.Case) {
 		}
 		total += n
 		m := wsMsg{Text: r.Bool()}
-		if m.Text {
+		if m.Text && c06Validate {
+			m.Payload = utf8Bytes(r, n)
+		} else if m.Text {
 			m.Payload = asciiBytes(r, n)
 		} else {
 			m.Payload = r.Bytes(n)
